@@ -184,3 +184,21 @@ Section WithOrigin.
     cbn [app length] in Hr. rewrite app_nil_r in Hr. exact Hr.
   Qed.
 End WithOrigin.
+
+From DV Require Import Proofs.SchemaTable.
+
+(* table level: for an entry whose two sides agree on the origin flags *)
+Theorem table_fixed_point_origin_thm : forall tbl o e w r ck wire cur rdlen vs,
+  forallb entry_ok tbl = true -> In e tbl -> entry_origin_ok e = true ->
+  e_codec e = CSchema w r ck -> is_absolute o = true ->
+  decode_rdata (Some o) (map fst r) ck wire cur rdlen = Ok vs ->
+  exists w', encode_rdata (Some o) (map fst w) ck vs = Ok w' /\
+             decode_rdata (Some o) (map fst r) ck w' 0 (length w') = Ok vs.
+Proof.
+  intros tbl o e w r ck wire cur rdlen vs Ht Hin Hor Hc Ho Hd.
+  rewrite forallb_forall in Ht. specialize (Ht e Hin).
+  pose proof (entry_sides_equal e w r ck Ht Hor Hc) as Heq.
+  rewrite <- decode_rdata_norm_last in Hd. rewrite <- Heq in Hd.
+  destruct (schema_fixed_point_origin_thm o Ho (map fst w) ck wire cur rdlen vs (entry_ok_wf e w r ck Ht Hc) Hd) as (w' & H1 & H2).
+  exists w'. split; [exact H1|]. rewrite <- decode_rdata_norm_last. rewrite <- Heq. exact H2.
+Qed.
